@@ -37,6 +37,7 @@ type pathElem struct {
 const (
 	LLocal = iota // exact local cell
 	LMap          // heap map Name indexed by Keys (1 or 2)
+	LConst        // a captured variable that nobody writes after capture: fixed content
 )
 
 type Loc struct {
@@ -47,6 +48,7 @@ type Loc struct {
 	Prefix string
 	Keys   []string
 	T      types.Type
+	Const  *Val // LConst
 }
 
 // State: versioned heap + exact locals.
